@@ -243,4 +243,49 @@ def run(ctx):
     narrowing_rule(ctx, repo)     # shared: the C fast-load path must not narrow 64-bit tape clocks
     from sa.rules import memo
     memo.run_for(ctx, repo, 'C12')
+    sysvars_rule(ctx, repo)
     return report.finish(ctx, EXPLANATION)
+
+def sysvars_rule(ctx, repo):
+    """C12.7: the system variables tap2sna seeds the simulated 48K machine with are the ones the ROM's initialisation (START/NEW at 0x11CB-0x12A1
+    in the ROM disassembly) leaves: the values are tied to each other by that routine, so a swapped or shifted row breaks a relation."""
+    ctx.rule('C12.7-sysvars', 'tap2sna.SYSVARS (the 48K system variables before LOAD): the values and relations the ROM initialisation routine establishes (P-RAMT, UDG, RAMTOP, ERR-SP, CHARS, CHANS, channel table, PROG, VARS, E-LINE, WORKSP, STKBOT, STKEND, DATADD, initial streams, screen addresses, colours)', floor=20)
+    sv = repo.const('tap2sna', 'SYSVARS')
+    if not isinstance(sv, tuple) or len(sv) < 203:
+        raise report.AnalysisError('tap2sna.SYSVARS not found as a tuple of at least 203 bytes')
+    m = repo.mod('tap2sna')
+    src = m.src
+    if 'memory[0x5C00:0x5C00 + len(SYSVARS)] = SYSVARS' not in src.replace('23552', '0x5C00'):
+        ctx.limit('sysvars base', 'the place where SYSVARS is copied to 0x5C00 is not recognised')
+    def b(a): return sv[a - 23552]
+    def w(a): return sv[a - 23552] + 256 * sv[a - 23551]
+    P_RAMT, UDG, RAMTOP, ERR_SP = w(23732), w(23675), w(23730), w(23613)
+    CHANS, PROG, VARS, E_LINE, WORKSP, STKBOT, STKEND, DATADD, CURCHL = w(23631), w(23635), w(23627), w(23641), w(23649), w(23651), w(23653), w(23639), w(23633)
+    checks = [
+        ('P-RAMT', P_RAMT == 0xFFFF, 'P-RAMT (23732) is %d; a 48K machine has its last RAM byte at 65535' % P_RAMT),
+        ('UDG', UDG == P_RAMT - 167, 'UDG (23675) is %d; the ROM puts the 21 user-defined graphics in the last 168 bytes below P-RAMT (%d)' % (UDG, P_RAMT - 167)),
+        ('RAMTOP', RAMTOP == UDG - 1, 'RAMTOP (23730) is %d; the ROM sets it to the byte before the user-defined graphics (%d)' % (RAMTOP, UDG - 1)),
+        ('ERR-SP', ERR_SP == RAMTOP - 3, 'ERR-SP (23613) is %d; the ROM leaves it 3 below RAMTOP (%d)' % (ERR_SP, RAMTOP - 3)),
+        ('CHARS', w(23606) == 0x3C00, 'CHARS (23606) is %d; the ROM character set minus 256 is at 15360' % w(23606)),
+        ('CHANS', CHANS == 23734, 'CHANS (23631) is %d; without Interface 1 the channel table starts right after the system variables, at 23734' % CHANS),
+        ('CURCHL', CURCHL == CHANS, 'CURCHL (23633) is %d, CHANS %d' % (CURCHL, CHANS)),
+        ('channel table', tuple(sv[CHANS - 23552:CHANS - 23552 + 21]) == (0xF4, 0x09, 0xA8, 0x10, 0x4B, 0xF4, 0x09, 0xC4, 0x15, 0x53, 0x81, 0x0F, 0xC4, 0x15, 0x52, 0xF4, 0x09, 0xC4, 0x15, 0x50, 0x80),
+         'the 21 bytes at CHANS are %s; the ROM copies K/S/R/P channel records F4 09 A8 10 4B / F4 09 C4 15 53 / 81 0F C4 15 52 / F4 09 C4 15 50 / 80' % (list(sv[CHANS - 23552:CHANS - 23552 + 21]),)),
+        ('PROG', PROG == CHANS + 21, 'PROG (23635) is %d; the program area starts after the 21-byte channel table (%d)' % (PROG, CHANS + 21)),
+        ('VARS', VARS == PROG, 'VARS (23627) is %d; with no program it equals PROG (%d)' % (VARS, PROG)),
+        ('DATADD', DATADD == PROG - 1, 'DATADD (23639) is %d; the ROM sets it to PROG-1 (%d)' % (DATADD, PROG - 1)),
+        ('E-LINE', E_LINE == VARS + 1, 'E-LINE (23641) is %d; it follows the end marker of the empty variables area (%d)' % (E_LINE, VARS + 1)),
+        ('WORKSP', WORKSP == E_LINE + 2, 'WORKSP (23649) is %d; the empty edit line takes two bytes after E-LINE (%d)' % (WORKSP, E_LINE + 2)),
+        ('STKBOT', STKBOT == WORKSP and STKEND == WORKSP, 'STKBOT / STKEND (23651 / 23653) are %d / %d; the empty calculator stack starts at WORKSP (%d)' % (STKBOT, STKEND, WORKSP)),
+        ('streams', tuple(sv[23568 - 23552:23568 - 23552 + 14]) == (1, 0, 6, 0, 11, 0, 1, 0, 1, 0, 6, 0, 16, 0), 'the initial stream table at 23568 is %s; the ROM copies 01 00 06 00 0B 00 01 00 01 00 06 00 10 00' % (list(sv[16:30]),)),
+        ('colours', b(23693) == b(23695) == b(23624) == 0x38, 'ATTR-P / ATTR-T / BORDCR are %d / %d / %d; the ROM sets black ink on white paper, 56' % (b(23693), b(23695), b(23624))),
+        ('DF-SZ', b(23659) == 2, 'DF-SZ (23659) is %d; the lower screen has 2 lines' % b(23659)),
+        ('DF-CC', w(23684) == 0x4000, 'DF-CC (23684) is %d; the print position is the top left of the display file, 16384' % w(23684)),
+        ('PR-CC', w(23680) == 0x5B00, 'PR-CC (23680) is %d; the printer buffer is at 23296' % w(23680)),
+        ('RASP / REPDEL / REPPER', (b(23608), b(23561), b(23562)) == (64, 35, 5), 'RASP / REPDEL / REPPER are %s; the ROM sets 64 / 35 / 5' % ((b(23608), b(23561), b(23562)),)),
+    ]
+    for name, ok, msg in checks:
+        if ok:
+            ctx.ok({'sysvar': name})
+        else:
+            ctx.violation('sysvar ' + name, 'skoolkit/tap2sna.py (SYSVARS)', msg)
